@@ -17,6 +17,10 @@ class RealFn (R : Type) where
   artanh : R → R
   arcsin : R → R
   abs : R → R
+  /-- normalised sinc: `sin(πx)/(πx)`, `1` at `0` (numpy.sinc) -/
+  sinc : R → R
+  /-- strict order test -/
+  lt : R → R → Bool
 
 instance : RealFn Float where
   pi := 3.14159265358979323846
@@ -29,6 +33,8 @@ instance : RealFn Float where
   artanh := Float.atanh
   arcsin := Float.asin
   abs := Float.abs
+  sinc := fun x => if x == 0.0 then 1.0 else Float.sin (3.14159265358979323846 * x) / (3.14159265358979323846 * x)
+  lt := fun a b => a < b
 
 section
 variable {R : Type} [Add R] [Sub R] [Mul R] [Div R] [Neg R] [NatCast R] [RealFn R]
